@@ -30,6 +30,7 @@ def run(ctx):
     for kind, b in sorted(TC.stream_receivers(fx).items()):
         r1_stream(chk, fx, kind, b)
     r2_pump(chk, fx, TC.ssh_pump(fx))
+    r2_other_wait_loops(chk, fx, TC.ssh_pump(fx))
     r3_propagation(chk, fx)
     r4_session_recv(chk, fx)
 
@@ -110,6 +111,12 @@ def r1_stream(chk, fx, kind, b):
                 oks = [bi for (bi, si, s) in b.ok_aggs() if bi in reach and not path_through(b, tgt, bi, r.bb)]
                 chk.instance("C07/R1", "%s: end of stream is reported as an error, not as a message" % kind, b.name, loc,
                              holds=not oks, key="C07/R1 %s eof-reported-as-ok" % fn)
+                # .. and at once: nothing is awaited between seeing end-of-stream and returning (the peer is gone; whatever else the
+                # code would wait for — the child process to exit, a lock, a timer — may never happen)
+                waits = [bi for (bi, _) in b.yields() if bi in reach]
+                chk.instance("C07/R1", "%s: end of stream is reported without waiting for anything else" % kind, b.name, loc,
+                             holds=not waits, key="C07/R1 %s eof-path-awaits" % fn,
+                             detail=None if not waits else "a suspension point lies between the zero-byte read and the error return")
 
 
 def path_through(b, src, dst, via):
@@ -316,3 +323,43 @@ def r4_session_recv(chk, fx):
                      key="C07/R4 Session::recv unaudited-wait %s" % T.short(T.strip_generics(what), 2),
                      detail=None if ok else "nothing wakes this wait when the request that is reading the transport fails: the other pending requests hang")
     chk.floor("C07/R4 await points of Session::recv", n, 3)
+
+
+# ---------------------------------------------------------------------------------------------
+def r2_other_wait_loops(chk, fx, pump):
+    """Any other loop of the SSH transport that waits on the channel (during set-up, say): `channel.wait() == None` means the channel is
+    closed and will be None again at once — the None outcome must leave that loop too."""
+    n = 0
+    for name, b in sorted(fx.mir.items()):
+        if b.crate != "netconf" or "::transport::ssh::" not in name or b is pump or "::tests::" in name:
+            continue
+        waits = b.calls_to("russh::Channel::<S>::wait", user_only=True)
+        if not waits:
+            continue
+        loops = [b.natural_loop(h) for h in b.loop_heads()]
+        waits = [w for w in waits if any(w.bb in lp for lp in loops)]
+        if not waits:
+            continue
+        chk.analysed(name)
+        for bi, bl in enumerate(b.blocks):
+            if bl.get("cleanup"):
+                continue
+            for s in bl["stmts"]:
+                if s["k"] != "assign" or s["rv"]["k"] != "discr" or (s.get("sp") or {}).get("m"):
+                    continue
+                pl = s["rv"]["pl"]
+                if pl.get("p") or b.local_ty(pl["l"]) != "std::option::Option<russh::ChannelMsg>":
+                    continue
+                t = b.blocks[bi]["term"]
+                if t["k"] != "switch" or F.op_local(t["discr"]) != s["pl"]["l"]:
+                    continue
+                m = {v: x for v, x in t["targets"]}
+                tgt = m.get(0, t["otherwise"])
+                again = [w for w in waits if w.bb in b.reachable(tgt)]
+                n += 1
+                chk.instance("C07/R2", "%s: channel.wait() == None (channel closed) leaves the loop" % T.short(T.strip_generics(name), 3), name, loc_of(s.get("sp")),
+                             holds=not again, key="C07/R2 %s wait-None-stays-in-loop" % T.short(T.strip_generics(name), 3),
+                             detail="the closed channel is polled again immediately: the connection attempt spins for ever" if again else None)
+        if n == 0:
+            chk.instance("C07/R2", "%s waits on the channel in a loop but never looks at the None outcome" % T.short(T.strip_generics(name), 3), name, waits[0].loc(),
+                         holds=False, key="C07/R2 %s wait-None-unchecked" % T.short(T.strip_generics(name), 3))
